@@ -2525,3 +2525,50 @@ func ruleCharIndex(c *Ctx, r *Rep) {
 		r.OK("census", token.NoPos, "%d dependencies count positions in characters; package cli does not use their Index with getLineByOffset", len(charCounting))
 	}
 }
+
+// ---------------------------------------------------------------------------------------------------------------------
+
+func init() {
+	reg(&Rule{ID: "R-C13-zerotime", Props: []string{"C13", "C09"}, Floor: 1,
+		Doc: "no native treats the zero time.Time as \"nothing parsed\": 0001-01-01T00:00:00Z is an instant of the domain (year 1), and the parsers used report failure through their error result",
+		Run: ruleZeroTime})
+}
+
+func ruleZeroTime(c *Ctx, r *Rep) {
+	p := c.Gojq
+	info := p.TypesInfo
+	isZeroLit := func(e ast.Expr) bool {
+		cl, ok := unparen(e).(*ast.CompositeLit)
+		return ok && len(cl.Elts) == 0 && isNamed(info.TypeOf(cl), "time", "Time")
+	}
+	n := 0
+	for _, fd := range c.Decls(p) {
+		if fd.Body == nil {
+			continue
+		}
+		ast.Inspect(fd.Body, func(q ast.Node) bool {
+			var pos token.Pos
+			what := ""
+			switch x := q.(type) {
+			case *ast.CallExpr:
+				if sel, ok := unparen(x.Fun).(*ast.SelectorExpr); ok && isNamed(derefType(info.TypeOf(sel.X)), "time", "Time") {
+					if sel.Sel.Name == "IsZero" || (sel.Sel.Name == "Equal" && len(x.Args) == 1 && isZeroLit(x.Args[0])) {
+						pos, what = x.Pos(), c.Src(x)
+					}
+				}
+			case *ast.BinaryExpr:
+				if (x.Op == token.EQL || x.Op == token.NEQ) && (isZeroLit(x.X) || isZeroLit(x.Y)) {
+					pos, what = x.Pos(), c.Src(x)
+				}
+			}
+			if what != "" {
+				n++
+				r.Bad("zerotime:"+declKey(fd), pos, "%s tests `%s`: the zero time is the legitimate instant 0001-01-01T00:00:00Z, inside the domain on which the date builtins are inverses (`-62135596800 | todate | fromdate` fails with \"strptime … cannot be applied\")", declKey(fd), what)
+			}
+			return true
+		})
+	}
+	if n == 0 {
+		r.OK("census", token.NoPos, "no comparison of a time.Time with the zero time in package gojq")
+	}
+}
